@@ -10,6 +10,23 @@ from ..runner import run_monitored
 
 def history(rng, net, mtu, n):
     style = rng.choice(["session", "session", "mutated", "noise", "tos-opcode", "capacity"])
+    if rng.random() < 0.03:
+        style = "overflow"
+    if style == "overflow":
+        # more distinct observations than the responder is willing to remember, then Queries until nothing is left (and a
+        # few more): every QueryResp on the way must still be consistent in itself
+        m = rng.randrange(len(net.mappers))
+        h = [G.f_discover(rng, net, m=m, tos=0)]
+        k = rng.choice([1023, 1024, 1025, 1030, 1100, 1300])
+        real = rng.choice(net.strangers)
+        for j in range(k):
+            h.append(W.probe(net.own, bytes([2, 0x7e]) + j.to_bytes(4, "big"), net.own, real, train=(j % 3 == 0)))
+            if j in (400, 1024) and rng.random() < 0.3:
+                h.append(G.f_query(rng, net, m))
+        cap = max(1, G.cap_qresp(mtu))
+        for _ in range((1024 + cap - 1) // cap + 4):
+            h.append(G.f_query(rng, net, m))
+        return style, h
     if style == "capacity":
         # responses filled to the brim: QueryResp at and over capacity, maximum-size Emit, large-TLV chunks
         m = rng.randrange(len(net.mappers))
@@ -197,4 +214,5 @@ def run(ctx):
     rep.need("determinism_pairs", c.get("determinism_pairs", 0), ctx.n(2300, 48000))
     for op in ("Hello", "Probe", "Train", "ACK", "QueryResp", "QueryLargeTlvResp"):
         rep.need("sent:" + op, c.get("sent:" + op, 0), 100)
+    rep.need("style:overflow (more observations than the responder keeps)", c.get("style:overflow", 0), 10)
     rep.need("clock_gaps_between_frames", rep.counters.get("clock_gaps_between_frames", 0), 200)
